@@ -21,6 +21,9 @@ type c14Case struct {
 	Mutant bool       `json:"mutant"` // true: must be rejected; false: must be accepted
 	Fault  string     `json:"fault,omitempty"`
 	Query  string     `json:"query"`
+	// Raw: statement text for shapes the generating AST cannot express (an
+	// expression as a subscript); used instead of Stmt when set
+	Raw string `json:"raw,omitempty"`
 }
 
 func init() { registerReplay("c14", func(c *c14Case) string { m, _, _ := checkC14(c); return m }) }
@@ -41,7 +44,12 @@ func isOperandTypeError(err error) bool {
 }
 
 func checkC14(c *c14Case) (msg string, nontrivial bool, labels []string) {
-	q := c.Stmt.Render()
+	q := c.Raw
+	if q == "" {
+		q = c.Stmt.Render()
+	} else if c.Stmt == nil {
+		c.Stmt = &lib.Stmt{Kind: "select", Star: true, Where: lib.Bin("=", lib.Int(1), lib.Int(1))}
+	}
 	c.Query = q
 	if c.Mutant {
 		for _, mode := range []string{"row"} {
@@ -493,6 +501,41 @@ func TestC14Positions(t *testing.T) {
 		{Stmt: &lib.Stmt{Kind: "select", Fields: []lib.SelField{{E: lib.Key()}, {E: lib.Call("max", lib.Call("strlen", lib.Value())), Alias: "m"}}, Where: lib.Bin("&", lib.In(lib.Key(), lib.Str("a"), lib.Str("b")), lib.Between(lib.Ref("m", lib.TyInt), lib.Int(1), lib.Int(5))), Group: []string{"key"}}, Mutant: true, Fault: "named-aggregate-in-between-in-where"},
 		{Stmt: &lib.Stmt{Kind: "select", Fields: []lib.SelField{{E: lib.Call("count", lib.Int(1)), Alias: "c"}}, Where: lib.Bin("=", lib.Call("str", lib.Bin("+", lib.Ref("c", lib.TyInt), lib.Int(1))), lib.Str("2"))}, Mutant: true, Fault: "named-aggregate-in-argument-in-where"},
 		{Stmt: &lib.Stmt{Kind: "put", Pairs: [][2]*lib.Node{{lib.Str("k"), lib.Call("str", lib.Call("count", lib.Int(1)))}}}, Mutant: true, Fault: "aggregate-in-put"},
+	}
+	// a fault in the second subscript of x[..][..], the key keyword in the
+	// key of a put pair, aggregates inside the arguments of aggregates
+	for _, raw := range [][2]string{
+		{"select key where json(value)['a'][key ^= 1] = 'x'", "fault-in-second-subscript"},
+		{"select key, json(value)['a'][1 + 'a'] where key ^= 'a'", "fault-in-second-subscript"},
+		{"select key where json(value)['a'][!1] = 'x'", "fault-in-second-subscript"},
+		{"delete where json(value)['a'][key in ('a', 1)] = 'x'", "fault-in-second-subscript"},
+		{"select key where json(value)['a']['b'][key ^= 1] = 'x'", "fault-in-third-subscript"},
+		{"put ('k', json('{\"a\":{\"b\":\"c\"}}')['a'][value])", "value-in-second-subscript-of-put"},
+		{"remove json('{\"a\":{\"b\":\"c\"}}')['a'][key]", "key-in-second-subscript-of-remove"},
+		{"put (key, 'v')", "key-as-put-key"},
+		{"put ('k1', 'v1'), (upper(key), 'v')", "key-inside-put-key"},
+		{"put ('k1', 'v1'), ('k' + key, key)", "key-inside-put-key"},
+		{"select count(1) as c, sum(c) where key ^= 'a'", "aggregate-inside-aggregate-argument"},
+		{"select sum(strlen(str(count(1)))) where key ^= 'a'", "aggregate-inside-aggregate-argument"},
+		{"select str(sum(count(1))) where key ^= 'a'", "aggregate-inside-aggregate-argument"},
+		{"select key, sum(int(str(count(1)))) where key ^= 'a' group by key", "aggregate-inside-aggregate-argument"},
+		{"select count(join(',', count(1))) where key ^= 'a'", "aggregate-inside-aggregate-argument"},
+	} {
+		forms = append(forms, &c14Case{Raw: raw[0], Mutant: true, Fault: raw[1]})
+	}
+	// the accepting side: well-typed shapes that the checker must not refuse
+	for _, raw := range []string{
+		"select * where key = 'a' & true",
+		"select * where false or key = 'a'",
+		"delete where key = 'a' & true",
+		"select * where !(key = 'a') = false",
+		"select * where is_int(value) != !(key = 'a')",
+		"select key, true & is_int(value) where true | key = 'zz'",
+		"select key, json(value)['a']['b'], json(value)['l'][0][1] where key ^= 'a'",
+		"put ('k1', upper(key)), ('k' + 'x', key + 'y')",
+		"select str(count(1)), sum(strlen(str(strlen(key)))) where key ^= 'a'",
+	} {
+		forms = append(forms, &c14Case{Raw: raw})
 	}
 	for _, c := range forms {
 		idx++
